@@ -25,7 +25,7 @@ LEVEL_TEXT = ("Step-cases with 10^3 particles each: random steep and flat bathym
 LEVEL_NOTE = "Asserted only where |vertical displacement| < h(start cell), as the property states. Trusts the spied W as the diffusion draw (its statistics are C11)."
 RULE = ("case = direct (bathymetry seed, Dz, w, scheme, flow) or e2e (ROMS world, Dz, w). Non-trivial: some particle was reflected at the surface or at the bottom and some particle "
         "changed cell during the step; distinct by parameters.")
-MANDATORY = ["e2e_w_packed_differently_in_each_forcing_file", "vertical_advection_on_with_w_exactly_zero_and_diffusion", "e2e_second_run_on_rewritten_shallower_files", "e2e_horizontal_diffusion_too", "e2e_forcing_files_with_other_bathymetry", "e2e_grid_module_ROMS2", "e2e_vtransform1_cells_shallower_than_hc", "reflected_at_surface", "reflected_at_bottom", "changed_cell_same_step", "start_at_surface_or_bottom", "vertical_advection", "vertical_diffusion",
+MANDATORY = ["e2e_both_switched_off_with_w_among_the_forcing_variables", "e2e_w_packed_differently_in_each_forcing_file", "vertical_advection_on_with_w_exactly_zero_and_diffusion", "e2e_second_run_on_rewritten_shallower_files", "e2e_horizontal_diffusion_too", "e2e_forcing_files_with_other_bathymetry", "e2e_grid_module_ROMS2", "e2e_vtransform1_cells_shallower_than_hc", "reflected_at_surface", "reflected_at_bottom", "changed_cell_same_step", "start_at_surface_or_bottom", "vertical_advection", "vertical_diffusion",
              "both_off_untouched", "steps_checked", "e2e_records_checked", "large_displacement_fraction", "e2e_subgrid_off_diagonal", "inactive_particles_reflected", "e2e_inactive_particles"]
 ASSUMPTIONS = ["|displacement| < h of the start cell (larger ones are outside the property)"]
 TIMEOUT = {"quick": 900, "thorough": 3400}
@@ -157,6 +157,7 @@ def _e2e(case, wd, V, sit, cnt):
     if shallow_v1:
         hmin = 4.0  # banks shallower than hc on a Vtransform 1 grid (the levels fold there; the water column is still [0, h])
     mode = case["idx"] % 3  # 0 diffusion, 1 advection, 2 both
+    both_off = bool(case["idx"] % 8 == 6)  # neither switched on, although the forcing carries w (wanted as an output variable only): depth must not change
     Dz = (hmin / 8.0) ** 2 / (2 * dt) * float(rng.uniform(0.05, 1.0)) if mode in (0, 2) else 0.0
     wv = float(rng.choice([-1, 1])) * 0.4 * hmin / dt if mode in (1, 2) else 0.0
     start = C.T0
@@ -193,7 +194,14 @@ def _e2e(case, wd, V, sit, cnt):
     if case["idx"] % 2:
         run["ibm"] = dict(module=C.REC_IBM, deactivate={"1": list(range(0, npart, 2))}, log=False)
         _bump(sit, "e2e_inactive_particles")
-    if mode in (1, 2):
+    if both_off:
+        run.pop("vertdiff", None)
+        wv = 0.4 * hmin / dt
+        w["scalars"] = dict(w=dict(kind="const", value=wv, w_levels=True))
+        run["extra_forcing"] = ["w"]
+        run["state"] = dict(instance_variables=dict(w="float"), default_values=dict(w=0.0))
+        _bump(sit, "e2e_both_switched_off_with_w_among_the_forcing_variables")
+    elif mode in (1, 2):
         run["vertical_advection"] = True
         run["extra_forcing"] = ["w"]
         run["state"] = dict(instance_variables=dict(w="float"), default_values=dict(w=0.0))
@@ -237,6 +245,10 @@ def _e2e(case, wd, V, sit, cnt):
                     hb = H[int(round(prev[p][1])), int(round(prev[p][0]))]
                     if not (0.0 <= prev[p][2] <= hb):
                         continue  # start depth outside [0, h]: outside the property's quantifier
+                    if both_off and z != prev[p][2]:
+                        V.append(C.viol(f"{where}record at {r.time}: pid {p} changed its depth from {prev[p][2]!r} to {z!r} although vertical diffusion and vertical advection are both "
+                                        f"switched off (w = {wv} is among the forcing variables)", **desc))
+                        return False
                     if not (0.0 <= z <= hb + 1e-9):
                         V.append(C.viol(f"{where}record at {r.time}: pid {p} at depth {z:.6f} m, bottom depth of the cell it occupied when the step began is {hb:.6f} m", **desc))
                         return False
